@@ -71,6 +71,7 @@ type tabEnt struct {
 
 // Config of one run.
 type Config struct {
+	UnlockYield bool // a scheduling point after every Unlock/RUnlock
 	Seed      uint64
 	MaxG      int // live goroutine slots
 	MaxSteps  int
@@ -693,6 +694,16 @@ func Yield() {
 	raceEnable()
 	if ab {
 		panic(abortT{})
+	}
+}
+
+// AfterUnlock is a scheduling point right after a lock was released (in runs configured with UnlockYield): the place
+// where a pre-emptive scheduler lets another thread into the window of a check-then-act sequence - state examined under
+// the lock, acted upon after it. Without it the code between an Unlock and the next synchronisation operation of the same
+// goroutine is atomic in the simulation.
+func AfterUnlock() {
+	if s := Active(); s != nil && s.cfg.UnlockYield {
+		Yield()
 	}
 }
 
